@@ -19,7 +19,7 @@ from checks.c14 import ref_frames
 
 PROPERTY = 'C19'
 LEVEL = 'exploration'
-RULE = ("schedule = list of actions over <=3 iterchunks generators (different chunklen/stepsize/start/end/remainder), <=2 nested "
+RULE = ("(array: 1 MB int64 in the quick tier, 4 MB in the thorough tier) schedule = list of actions over <=3 iterchunks generators (different chunklen/stepsize/start/end/remainder), <=2 nested "
         "open_array() contexts, element reads and writes, + a finishing order (exhaust|close|drop per survivor, contexts exited "
         "LIFO); bounded-exhaustive: every well-formed schedule up to length L over 2 generators + 1 context, and Hypothesis-generated "
         "longer ones; each schedule runs in its own forked process; oracle = in-memory model of the contents at the moment of every "
@@ -31,9 +31,18 @@ ASSUMPTIONS = ["single-threaded interleavings of generator steps only: the harne
 EXHAUSTIVE = None
 MUST_HIT = ['mixed-access-modes', 'failing-access-while-shared', 'owner-finishes-before-borrower-advances', 'generator-dropped', 'write-while-two-generators-live', 'ctx-exit-before-generator-advance',
             'generator-closed-early', 'nested-contexts', 'started-inside-context-advanced-after-exit']
-N = 524288      # int64 elements = 4 MB
-GPARAMS = [dict(chunklen=100000), dict(chunklen=70000, stepsize=150000, startindex=1000, endindex=500000),
-           dict(chunklen=262144, stepsize=131072, include_remainder=False)]
+N = 131072      # int64 elements = 1 MB (well above malloc's mmap threshold, so an unmapped region is really gone); thorough: 4 MB
+GPARAMS = [dict(chunklen=25000), dict(chunklen=17500, stepsize=37500, startindex=250, endindex=125000),
+           dict(chunklen=65536, stepsize=32768, include_remainder=False)]
+
+
+def _scale(ctx):
+    """The thorough tier uses the 4 MB array of the design; the quick tier a 1 MB one (4x cheaper per forked schedule)."""
+    global N, GPARAMS
+    if ctx.thorough and N == 131072:
+        N = 524288
+        GPARAMS = [dict(chunklen=100000), dict(chunklen=70000, stepsize=150000, startindex=1000, endindex=500000),
+                   dict(chunklen=262144, stepsize=131072, include_remainder=False)]
 
 
 _BASE = {}
@@ -260,7 +269,15 @@ def child_run(path, actions, finish, hmode='r+'):
     return None
 
 
+_FROZEN = []
+
+
 def execute(ctx, spec):
+    _scale(ctx)
+    if not _FROZEN:
+        gc.collect()
+        gc.freeze()         # children call gc.collect(); keep the parent's heap out of their collections
+        _FROZEN.append(1)
     out = Outcome()
     actions = normalise([list(a) for a in spec['actions']])
     finish = [list(f) for f in spec.get('finish', [])]
@@ -327,7 +344,7 @@ def execute(ctx, spec):
 # ------------------------------------------------------------------ enumeration
 def alphabet():
     return [['start', 0], ['start', 1], ['next', 0], ['next', 1], ['close', 0], ['close', 1], ['drop', 0], ['drop', 1], ['enter'], ['exit'],
-            ['read', 123456], ['write', 250000, -7], ['badread']]
+            ['read', 12345], ['write', 60000, -7], ['badread']]
 
 
 def wellformed(L):
@@ -411,6 +428,7 @@ def task_random(ctx, col, shard, n):
 
 def tasks(ctx):
     global EXHAUSTIVE
+    _scale(ctx)
     L = ctx.pick(5, 6)
     EXHAUSTIVE = f"every well-formed schedule of length <= {L} over 2 generators + 1 context containing at least one generator advance, x 2 finishing orders"
     t = []
